@@ -31,6 +31,7 @@ func main() {
 		runC03(*seed, *count)
 	case "C07":
 		runC07(*seed, *count)
+		runC07n(*seed, *count)
 	case "C14":
 		runC14(*seed, *count)
 	case "C17":
